@@ -164,7 +164,9 @@ def gen_ops(rng, store, defaults, *, n_ops, conf_events, aliasing, options=None,
                 sent_names.append(set(names))
                 sent_content.append({n: [str(x) for x in getattr(im.cfg, n)] for n in tab.lists if isinstance(getattr(im.cfg, n), list)})
         elif r < 0.93:
-            if inflight:
+            # (answers are held back half of the time while only one SETCONF is outstanding, so that histories with
+            # two or three saves in flight — changes between them, answers arriving one by one — are common)
+            if inflight and (len(inflight) >= 2 or rng.random() < 0.5):
                 ok = rng.random() < 0.8
                 do(['ack', ok])
                 snap = inflight.pop(0)
